@@ -15,12 +15,82 @@ from .mgr import const_resolver, module_writers, MGR, CORE, self_call
 COUNTERS = ("message_counts", "traffic_counter")
 
 
-def aug_incs(f, counter):
-    return [n for n in walk_local(f.node) if isinstance(n, ast.AugAssign) and isinstance(n.target, ast.Subscript) and path_of(n.target.value) == f"self.{counter}"]
+def aug_incs(f, cpath):
+    am = alias_map(f, [cpath])
+    return [n for n in walk_local(f.node) if isinstance(n, ast.AugAssign) and isinstance(n.target, ast.Subscript) and rpath(n.target.value, am) == cpath]
+
+
+def alias_map(f, cpaths):
+    """locals bound exactly once to (a prefix of) a counter's access path (`interval = self.traffic`): {local: that path}"""
+    defs: Dict[str, list] = {}
+    for n in walk_local(f.node):
+        if isinstance(n, ast.Assign) and len(n.targets) == 1 and isinstance(n.targets[0], ast.Name):
+            defs.setdefault(n.targets[0].id, []).append(n.value)
+        elif isinstance(n, (ast.AugAssign, ast.AnnAssign, ast.For)) and isinstance(getattr(n, "target", None), ast.Name):
+            defs.setdefault(n.target.id, []).extend([None, None])
+    out = {}
+    for k, vs in defs.items():
+        if len(vs) == 1 and vs[0] is not None:
+            p = path_of(vs[0])
+            if p and any(cp == p or cp.startswith(p + ".") for cp in cpaths) and p != "self":
+                out[k] = guards.parse(p)
+    return out
+
+
+def rpath(e, am):
+    return path_of(guards.subst(e, am)) if am else path_of(e)
+
+
+def discover_counters(mm, fm, hdr_p):
+    """the counters are what forward_message increments under the message's type; which is which follows from the reporter
+    that walks it.  {name used in reports: access path} - `self.traffic_counter` today, `self.traffic.counts` when the
+    interval state is kept in an object of its own."""
+    paths = []
+    for n in walk_local(fm.node):
+        if isinstance(n, ast.AugAssign) and isinstance(n.target, ast.Subscript) and norm(n.target.slice) == f"{hdr_p}.msg_type" and path_of(n.target.value):
+            if path_of(n.target.value) not in paths:
+                paths.append(path_of(n.target.value))
+    out = {"message_counts": "self.message_counts", "traffic_counter": "self.traffic_counter"}
+    for cn, rn in (("message_counts", "send_timing_message"), ("traffic_counter", "send_traffic")):
+        if out[cn] in paths:
+            continue
+        rf = mm.methods.get(rn)
+        if rf is None:
+            continue
+        for p in paths:
+            if p in out.values():
+                continue
+            am = alias_map(rf, [p])
+            reads = [x for x in walk_local(rf.node) if isinstance(x, ast.Call) and isinstance(x.func, ast.Attribute) and x.func.attr in ("items", "keys", "values") and rpath(x.func.value, am) == p]
+            if reads:
+                out[cn] = p
+    return out
+
+
+_RAISED_CACHE: Dict[int, tuple] = {}
 
 
 def inside_ctx(n, ctx_expr) -> bool:
-    return any(isinstance(a, ast.With) and any(norm(it.context_expr) == ctx_expr for it in a.items) for a in ancestors(n))
+    """is the call n made while the manager's "sending statistics" flag is raised?  ctx_expr is either the text of the
+    context-manager call the reporters use (`self.sending_traffic_ctx()`: lexical containment in the with block) or
+    ("flag", "self.sending_traffic") when the reporters raise the flag themselves (`token = FLAG.set(True)` ... `FLAG.reset(token)`):
+    then every path from the function's entry to the call passes a set(True) and no reset lies between the last set and the call."""
+    if isinstance(ctx_expr, str):
+        return any(isinstance(a, ast.With) and any(norm(it.context_expr) == ctx_expr for it in a.items) for a in ancestors(n))
+    flagp = ctx_expr[1]
+    fn = next((a for a in ancestors(n) if isinstance(a, (ast.FunctionDef, ast.AsyncFunctionDef))), None)
+    if fn is None:
+        return False
+    if id(fn) not in _RAISED_CACHE:
+        g = C.build(fn)
+        sets = [x for x in g.nodes if any(is_method_call(c, "set") and path_of(recv_of(c)) == flagp and c.args and isinstance(c.args[0], ast.Constant) and c.args[0].value is True for c in node_calls(x))]
+        resets = [x for x in g.nodes if any(is_method_call(c, ("reset", "set")) and path_of(recv_of(c)) == flagp and x not in sets for c in node_calls(x))]
+        low = flow.reach(g, [g.entry.id], blocked={x.id for x in sets}, blocked_pass_exc=True)  # reached with no completed set
+        after_reset = flow.reach(g, [e.dst for r in resets for e in g.succ[r.id] if e.kind != "exc"], blocked={x.id for x in sets}, blocked_pass_exc=True)
+        _RAISED_CACHE[id(fn)] = (g, {x.id for x in sets}, low, after_reset, fn)
+    g, set_ids, low, after_reset, _keep = _RAISED_CACHE[id(fn)]
+    nodes = [x for x in g.nodes if any(c is n for c in node_calls(x))]
+    return bool(nodes) and bool(set_ids) and all(x.id not in set_ids and x.id not in low and x.id not in after_reset for x in nodes)
 
 
 def reporter_units(mm, rf, stop: set, ctx_expr, depth=3):
@@ -35,7 +105,7 @@ def reporter_units(mm, rf, stop: set, ctx_expr, depth=3):
         out.append((u, in_ctx, chain))
         for c in calls_in(u.node):
             if isinstance(c.func, ast.Attribute) and path_of(c.func.value) == "self" and c.func.attr in mm.methods and c.func.attr not in stop | {"send_message"} and not c.func.attr.startswith("__"):
-                go(mm.methods[c.func.attr], in_ctx or inside_ctx(c, ctx_expr), chain + [(u, c)], d + 1)
+                go(mm.methods[c.func.attr], in_ctx or (bool(ctx_expr) and inside_ctx(c, ctx_expr)), chain + [(u, c)], d + 1)
 
     go(rf, False, [], 0)
     return out
@@ -62,13 +132,15 @@ def run(prog: Program, chk: Check):
     # ---- I counted exactly where forwarded -----------------------------------------------------------------
     I = chk.rule("C18-I", "counters are incremented only in forward_message[header.msg_type], once per handled message, before any return, not while sending statistics", 6,
                  "a second increment site, a skipped path or counting the statistics messages themselves makes the report inexact")
+    cpath = discover_counters(mm, fm, hdr_p)
+    chk.units["counter_paths"] = dict(cpath)
     for f in mm.methods.values():
         for cn in COUNTERS:
-            for n in aug_incs(f, cn):
+            for n in aug_incs(f, cpath[cn]):
                 okk = f.key == fm.key and norm(n.target.slice) == f"{hdr_p}.msg_type" and isinstance(n.op, ast.Add) and isinstance(n.value, ast.Constant) and n.value.value == 1
                 I.decide(okk, fkey(f, n), where(f, n), f"{cn}[{hdr_p}.msg_type] += 1 in forward_message", f"{cn} is incremented in {f.qual} as `{norm(n)}`")
             for n in walk_local(f.node):
-                if isinstance(n, ast.Assign) and any(isinstance(t, ast.Subscript) and path_of(t.value) == f"self.{cn}" for t in n.targets):
+                if isinstance(n, ast.Assign) and any(isinstance(t, ast.Subscript) and rpath(t.value, alias_map(f, [cpath[cn]])) == cpath[cn] for t in n.targets):
                     I.bad(fkey(f, n), where(f, n), f"{cn} entry assigned directly in {f.qual}: {norm(n)}")
     # the exclusion mechanism is read off the code: the context-manager method the reporters send under, and the
     # flag that method sets.  A guard computed from the message itself (its type, its source) is not a mechanism:
@@ -89,13 +161,26 @@ def run(prog: Program, chk: Check):
                                 for c in calls_in(cand.node):
                                     if is_method_call(c, "set") and (path_of(recv_of(c)) or "").startswith("self.") and c.args and isinstance(c.args[0], ast.Constant) and c.args[0].value is True:
                                         ctx_name, flag = cand.name, path_of(recv_of(c))
+    flag_kind = False
     if ctx_name is None:
+        # the reporters may raise the flag themselves: `token = self.<flag>.set(True)` ... `self.<flag>.reset(token)`
+        fl = set()
+        for rn in ("send_timing_message", "send_traffic"):
+            for f2 in [u for u, _, _ in reporter_units(mm, mm.methods[rn], {fm.name}, "")]:
+                for c in calls_in(f2.node):
+                    if is_method_call(c, "set") and (path_of(recv_of(c)) or "").startswith("self.") and c.args and isinstance(c.args[0], ast.Constant) and c.args[0].value is True:
+                        fl.add(path_of(recv_of(c)))
+        if len(fl) == 1:
+            flag = next(iter(fl))
+            flag_kind = True
+    if ctx_name is None and not flag_kind:
         I.bad(fkey(fm, "exclusion-mechanism"), where(fm), "the reporters do not send their statistics messages inside a block that raises a manager-side flag: nothing distinguishes the manager's own "
               "statistics messages from client messages of the same types")
         ctx_name, flag = "sending_traffic_ctx", "self.sending_traffic"
-    ctx_expr = f"self.{ctx_name}()"
+    ctx_expr = f"self.{ctx_name}()" if not flag_kind else ("flag", flag)
+    ctx_label = ctx_expr if not flag_kind else f"the {flag}.set(True) ... reset(token) block"
     for cn, extra in (("traffic_counter", ""), ("message_counts", " and self.b_send_msg_timing")):
-        incs = [n for n in g.nodes if n.kind == "stmt" and isinstance(n.ast, ast.AugAssign) and isinstance(n.ast.target, ast.Subscript) and path_of(n.ast.target.value) == f"self.{cn}"]
+        incs = [n for n in g.nodes if n.kind == "stmt" and isinstance(n.ast, ast.AugAssign) and isinstance(n.ast.target, ast.Subscript) and rpath(n.ast.target.value, alias_map(fm, [cpath[cn]])) == cpath[cn]]
         if len(incs) != 1:
             I.bad(fkey(fm, f"{cn}:single-site"), where(fm), f"expected one increment of {cn} in forward_message, found {len(incs)}")
             continue
@@ -131,18 +216,32 @@ def run(prog: Program, chk: Check):
                     if not (in_ctx or inside_ctx(c, ctx_expr)):
                         sends_out.append(f"{u.name}: {norm(c)[:50]}")
         okw = nsends > 0 and not sends_out
-        I.decide(okw, fkey(rf, "sends-inside-ctx"), where(rf), f"every statistics message is sent inside {ctx_expr}", f"{rn} sends a statistics message outside {ctx_expr}: it would be counted ({sends_out})")
-    ctx = mm.methods.get(ctx_name)
-    if ctx is None:
-        ctx = fm  # reported above as a missing mechanism; the flag rule below then fails on forward_message
-    sets = [c for c in calls_in(ctx.node) if is_method_call(c, "set") and path_of(recv_of(c)) == "self.sending_traffic"]
-    I.decide(len(sets) == 1 and isinstance(sets[0].args[0], ast.Constant) and sets[0].args[0].value is True and any(is_method_call(c, "reset") for c in calls_in(ctx.node)), fkey(ctx, "sets-flag"), where(ctx),
-             "the block sets the flag and resets it afterwards", "sending_traffic_ctx does not set(True)/reset the flag")
-    cx = C.build(ctx.node)
-    ys = [n for n in cx.nodes if n.kind == "stmt" and isinstance(n.ast, ast.Expr) and isinstance(n.ast.value, ast.Yield)]
-    rs = [n for n in cx.nodes if any(is_method_call(c, "reset") for c in node_calls(n))]
-    if flow.must_follow(cx, ys, rs, exits=("raise",), from_exc_of_A=True):
-        chk.note("O-8 sending_traffic_ctx restores its flag without try/finally; an exception inside the block ends run() anyway (C03), so not charged to C18")
+        I.decide(okw, fkey(rf, "sends-inside-ctx"), where(rf), f"every statistics message is sent inside {ctx_label}", f"{rn} sends a statistics message outside {ctx_label}: it would be counted ({sends_out})")
+    if flag_kind:
+        # each reporter that raises the flag lowers it again with the token of its own set, on every normal path
+        for rn in ("send_timing_message", "send_traffic"):
+            for u, _, _ in reporter_units(mm, mm.methods[rn], {fm.name}, ""):
+                ug_ = C.build(u.node)
+                sets_ = [n for n in ug_.nodes if any(is_method_call(c, "set") and path_of(recv_of(c)) == flag for c in node_calls(n))]
+                if not sets_:
+                    continue
+                toks = {path_of(n.ast.targets[0]) for n in sets_ if isinstance(n.ast, ast.Assign) and len(n.ast.targets) == 1}
+                rs_ = [n for n in ug_.nodes if any(is_method_call(c, "reset") and path_of(recv_of(c)) == flag and c.args and path_of(c.args[0]) in toks for c in node_calls(n))]
+                okr_ = len(sets_) == 1 and len(toks) == 1 and bool(rs_) and not flow.must_follow(ug_, sets_, rs_, exits=("exit",))
+                I.decide(okr_, fkey(u, "sets-flag"), where(u), "the flag is set once and reset with its own token on every normal path",
+                         f"{u.name} raises {flag} without resetting it (with the token of that set) on every normal path: later client messages would go uncounted")
+    else:
+        ctx = mm.methods.get(ctx_name)
+        if ctx is None:
+            ctx = fm  # reported above as a missing mechanism; the flag rule below then fails on forward_message
+        sets = [c for c in calls_in(ctx.node) if is_method_call(c, "set") and path_of(recv_of(c)) == "self.sending_traffic"]
+        I.decide(len(sets) == 1 and isinstance(sets[0].args[0], ast.Constant) and sets[0].args[0].value is True and any(is_method_call(c, "reset") for c in calls_in(ctx.node)), fkey(ctx, "sets-flag"), where(ctx),
+                 "the block sets the flag and resets it afterwards", "sending_traffic_ctx does not set(True)/reset the flag")
+        cx = C.build(ctx.node)
+        ys = [n for n in cx.nodes if n.kind == "stmt" and isinstance(n.ast, ast.Expr) and isinstance(n.ast.value, ast.Yield)]
+        rs = [n for n in cx.nodes if any(is_method_call(c, "reset") for c in node_calls(n))]
+        if flow.must_follow(cx, ys, rs, exits=("raise",), from_exc_of_A=True):
+            chk.note("O-8 sending_traffic_ctx restores its flag without try/finally; an exception inside the block ends run() anyway (C03), so not charged to C18")
 
     # ---- R read-then-reset -------------------------------------------------------------------------------------
     R = chk.rule("C18-R", "each counter is cleared only by its reporter, after the copy, on every path; nothing forwards between copy and clear outside the statistics block", 4,
@@ -150,15 +249,33 @@ def run(prog: Program, chk: Check):
     fwd_key = fm.key
     for cn, rn in (("message_counts", "send_timing_message"), ("traffic_counter", "send_traffic")):
         rf = mm.methods[rn]
+        cp = cpath[cn]
+
+        def is_reset(x, f, cp=cp):
+            """x empties the counter: `<counter>.clear()`, or - when the counter lives in an interval object - the statement that
+            installs a new interval object (a store to a strict prefix of the counter's path; that the new object starts empty is
+            decided by C18-K's post-condition)"""
+            am = alias_map(f, [cp])
+            if isinstance(x, ast.Call):
+                return is_method_call(x, "clear") and rpath(recv_of(x), am) == cp
+            if isinstance(x, ast.Assign):
+                return any(path_of(t) and path_of(t) != "self" and cp.startswith(path_of(t) + ".") for t in x.targets)
+            return False
+
+        def resets_in(node, f):
+            return [x for x in walk_local(node) if (isinstance(x, ast.Call) or isinstance(x, ast.Assign)) and is_reset(x, f)]
+
         for f in mm.methods.values():
-            for c in calls_in(f.node):
-                if is_method_call(c, "clear") and path_of(recv_of(c)) == f"self.{cn}":
-                    R.decide(f.key in {u.key for u, _, _ in reporter_units(mm, rf, {ctx_name, fm.name}, ctx_expr)}, fkey(f, c), where(f, c), f"{cn} cleared by its reporter", f"{cn}.clear() in {f.qual}")
+            runits = {u.key for u, _, _ in reporter_units(mm, rf, {ctx_name, fm.name}, ctx_expr)}
+            for c in resets_in(f.node, f):
+                if f.name == "__init__" and isinstance(c, ast.Assign):
+                    continue
+                R.decide(f.key in runits, fkey(f, c), where(f, c), f"{cn} cleared by its reporter", f"{cn} emptied (`{norm(c)[:50]}`) in {f.qual}")
             for n in walk_local(f.node):
-                if isinstance(n, ast.Assign) and any(path_of(t) == f"self.{cn}" for t in n.targets) and f.name != "__init__":
+                if isinstance(n, ast.Assign) and any(path_of(t) == cp for t in n.targets) and f.name != "__init__":
                     R.bad(fkey(f, n), where(f, n), f"{cn} rebound in {f.qual}")
         units = reporter_units(mm, rf, {ctx_name, fm.name}, ctx_expr)
-        has_clear = lambda u: any(is_method_call(c, "clear") and path_of(recv_of(c)) == f"self.{cn}" for c in calls_in(u.node))
+        has_clear = lambda u: bool(resets_in(u.node, u))
         cu = [(u, chain) for u, _, chain in units if has_clear(u)]
         if len({u.key for u, _ in cu}) != 1:
             R.bad(fkey(rf, f"{cn}:copy-then-clear"), where(rf), f"{rn}: expected the clear of {cn} in exactly one place of the reporter, found {sorted({u.name for u, _ in cu})}")
@@ -182,10 +299,13 @@ def run(prog: Program, chk: Check):
             if n_.ast is None:
                 return False
             ex = n_.ast.iter if n_.kind == "for" else (n_.ast.value if n_.kind == "stmt" and isinstance(n_.ast, (ast.Assign, ast.AnnAssign)) and n_.ast.value is not None else None)
-            return ex is not None and any(t_ in norm(ex) for t_ in (f"self.{cn}.items()", f"self.{cn}.keys()", f"self.{cn}.values()", f"dict(self.{cn})", f"list(self.{cn})", f"self.{cn}.copy()"))
+            if ex is None:
+                return False
+            txt = norm(guards.subst(ex, alias_map(rf_, [cp])))
+            return any(t_ in txt for t_ in (f"{cp}.items()", f"{cp}.keys()", f"{cp}.values()", f"dict({cp})", f"list({cp})", f"{cp}.copy()"))
 
         loops = [n for n in rg.nodes if reads_counter(n)]
-        clears = [n for n in rg.nodes if any(is_method_call(c, "clear") and path_of(recv_of(c)) == f"self.{cn}" for c in node_calls(n))]
+        clears = [n for n in rg.nodes if n.ast is not None and n.kind == "stmt" and ((isinstance(n.ast, ast.Assign) and is_reset(n.ast, rf_)) or any(is_reset(c, rf_) for c in node_calls(n)))]
         # a clear that is not preceded by the copy is tolerated only on a branch taken when nobody is subscribed to the
         # report (the branch condition reads self.subscriptions); what that branch does is decided by C18-K's two scenarios
         gsr = flow.guard_states(rg)
@@ -225,7 +345,7 @@ def run(prog: Program, chk: Check):
     stcm = guards.copy_map(st.node)  # `timing = data.timing` is looked through
     stres = const_resolver(prog, st.module)
     stg = C.build(st.node)
-    for it, tgt_attr, val in (("self.message_counts.items()", "timing", None), ("self.modules.values()", "ModulePID", "pid")):
+    for it, tgt_attr, val in ((f"{cpath['message_counts']}.items()", "timing", None), ("self.modules.values()", "ModulePID", "pid")):
         lp = [n for n in walk_local(st.node) if isinstance(n, ast.For) and norm(n.iter) == it]
         okl = len(lp) == 1
         if okl:
@@ -295,12 +415,77 @@ def run(prog: Program, chk: Check):
         return t
 
     try:
-        _chunking(prog, chk, K, mm, stf, core, sizes, KS, tables, consts, all_types, ctx_name)
+        _chunking(prog, chk, K, mm, stf, core, sizes, KS, tables, consts, all_types, ctx_name, flag, cpath["traffic_counter"])
     except AnalysisError as e:
         chk.defer_error(f"C18-K could not interpret send_traffic: {e}")
 
 
-def _chunking(prog, chk, K, mm, stf, core, sizes, KS, tables, consts, all_types, ctx_name):
+def _dataclass_obj(ci, args=(), kwargs=None):
+    """an object of a small state-holding dataclass of the manager module: fields from the arguments, else their declared defaults
+    (constants; default_factory -> an empty container, or 0.0 for a clock)"""
+    kwargs = dict(kwargs or {})
+    names, vals = [], {}
+    for n in ci.node.body:
+        if isinstance(n, ast.AnnAssign) and isinstance(n.target, ast.Name):
+            names.append(n.target.id)
+            v = n.value
+            if isinstance(v, ast.Constant):
+                vals[n.target.id] = v.value
+            elif isinstance(v, ast.Call) and norm(v.func).split(".")[-1] == "field":
+                fac = next((k.value for k in v.keywords if k.arg == "default_factory"), None)
+                dfl = next((k.value for k in v.keywords if k.arg == "default"), None)
+                if isinstance(dfl, ast.Constant):
+                    vals[n.target.id] = dfl.value
+                elif fac is not None:
+                    ft = norm(fac).split(".")[-1]
+                    vals[n.target.id] = {} if ft in ("Counter", "dict", "defaultdict", "OrderedDict") else [] if ft == "list" else set() if ft == "set" else 0.0
+    for nme, a in zip(names, args):
+        vals[nme] = a
+    for k, v in kwargs.items():
+        if k not in names:
+            raise AnalysisError(f"C18 vocabulary exceeded: {ci.name}({k}=...)")
+        vals[k] = v
+    missing = [n for n in names if n not in vals]
+    if missing:
+        raise AnalysisError(f"C18 vocabulary exceeded: {ci.name} constructed without {missing}")
+    return Obj(ci, ci.name, **vals)
+
+
+def _chunking(prog, chk, K, mm, stf, core, sizes, KS, tables, consts, all_types, ctx_name, flag="self.sending_traffic", cpath="self.traffic_counter"):
+    flag_attr = (flag or "self.sending_traffic").split(".", 1)[1]
+    # where the report's sequence number lives: what send_traffic stores into data.seqno (possibly through a local naming the interval object)
+    am = alias_map(stf, [cpath])
+    seq_src = [guards.subst(n.value, am) for n in walk_local(stf.node) if isinstance(n, ast.Assign) and any(isinstance(t, ast.Attribute) and t.attr == "seqno" for t in n.targets)]
+    seq_path = path_of(seq_src[0]) if len(seq_src) == 1 and path_of(seq_src[0]) else "self.traffic_seqno"
+    holder_cls = None
+    parts = cpath.split(".")
+    if len(parts) == 3:  # self.<holder>.<field>
+        init = mm.methods["__init__"]
+        for n in walk_local(init.node):
+            v = n.value if isinstance(n, (ast.Assign, ast.AnnAssign)) else None
+            t = (n.targets[0] if isinstance(n, ast.Assign) else n.target) if v is not None else None
+            if t is not None and path_of(t) == ".".join(parts[:2]) and isinstance(v, ast.Call) and isinstance(v.func, ast.Name):
+                holder_cls = mm.module.classes.get(v.func.id)
+        if holder_cls is None:
+            raise AnalysisError(f"C18 vocabulary exceeded: the object holding {cpath} is not constructed from a class of manager.py in __init__")
+    elif len(parts) != 2:
+        raise AnalysisError(f"C18 vocabulary exceeded: counter path {cpath}")
+
+    def make_mgr(counter, subs):
+        m = Obj(mm, "MessageManager", traffic_seqno=1, traffic_start=0.0, subscriptions=subs, modules={}, logger_modules=set())
+        if holder_cls is None:
+            m.set(parts[1], counter)
+        else:
+            h = _dataclass_obj(holder_cls, (), {parts[2]: counter})
+            if seq_path.startswith(".".join(parts[:2]) + "."):
+                h.set(seq_path.split(".")[2], 1)
+            m.set(parts[1], h)
+        m.set(flag_attr, Obj(None, "ContextVar", value=False))
+        return m
+
+    def read(it_, m, path):
+        return it_.eval(ast.parse(path, mode="eval").body, {"self": m, "__func__": stf})
+
     steps = 0
     for L in sizes:
         snapshots: List[dict] = []
@@ -315,13 +500,15 @@ def _chunking(prog, chk, K, mm, stf, core, sizes, KS, tables, consts, all_types,
         def construct(ci, args=(), kwargs=None):
             if ci.name == "MDF_MESSAGE_TRAFFIC":
                 return Obj(ci, ci.name, msg_type=FixedArray(KS, 0), msg_count=FixedArray(KS, 0))
+            if holder_cls is not None and ci is holder_cls:
+                return _dataclass_obj(ci, args, kwargs)
             raise AnalysisError(f"C18 vocabulary exceeded: construction of {ci.name} in send_traffic")
 
         const_env = {"cd.MESSAGE_TRAFFIC_SIZE": KS, "MESSAGE_TRAFFIC_SIZE": KS, "cd.MDF_MESSAGE_TRAFFIC": ("class", core.classes["MDF_MESSAGE_TRAFFIC"]),
                      "time.perf_counter": ("pyfunc", lambda: 0.0), "ALL_MESSAGE_TYPES": all_types, "cd.ALL_MESSAGE_TYPES": all_types}
         const_env.update({f"cd.{k}": v for k, v in consts.items() if k.startswith("MT_") and isinstance(v, int)})
         it = Interp(prog, {"send_message": send, ctx_name: lambda s, a, k: None}, const_env, construct=construct)
-        mgr = Obj(mm, "MessageManager", traffic_counter=counter, traffic_seqno=1, traffic_start=0.0, subscriptions=tables(True), modules={}, logger_modules=set())
+        mgr = make_mgr(counter, tables(True))
         raised = None
         try:
             it.call_method(stf, mgr, [])
@@ -357,14 +544,14 @@ def _chunking(prog, chk, K, mm, stf, core, sizes, KS, tables, consts, all_types,
                  f"{L} distinct types in the interval -> {len(snapshots)} sub-message(s): " + "; ".join(why))
         # the counter is cleared and the sequence number advanced after the report
         if L == KS + 1:
-            K.decide(len(mgr.get("traffic_counter")) == 0 and mgr.get("traffic_seqno") == 2, fkey(stf, "reset-after-report"), where(stf), "counter cleared and seqno advanced after the report",
+            K.decide(len(read(it, mgr, cpath)) == 0 and read(it, mgr, seq_path) == 2, fkey(stf, "reset-after-report"), where(stf), "counter cleared and seqno advanced after the report",
                      "send_traffic does not clear the counter / advance traffic_seqno")
             # an interval nobody listens to: nothing to deliver, but its counts must not leak into the next report
-            quiet = Obj(mm, "MessageManager", traffic_counter={("T", j): ("C", j) for j in range(3)}, traffic_seqno=1, traffic_start=0.0, subscriptions=tables(False), modules={}, logger_modules=set())
+            quiet = make_mgr({("T", j): ("C", j) for j in range(3)}, tables(False))
             it2 = Interp(prog, {"send_message": lambda s_, a, k: None, ctx_name: lambda s_, a, k: None}, const_env, construct=construct)
             try:
                 it2.call_method(stf, quiet, [])
-                K.decide(len(quiet.get("traffic_counter")) == 0, fkey(stf, "reset-without-listeners"), where(stf), "counter cleared at the end of an interval nobody subscribed to",
+                K.decide(len(read(it2, quiet, cpath)) == 0, fkey(stf, "reset-without-listeners"), where(stf), "counter cleared at the end of an interval nobody subscribed to",
                          "send_traffic leaves the interval's counts in place when nobody is subscribed: they are added to the next reported interval")
             except ModelRaise as r:
                 K.bad(fkey(stf, "reset-without-listeners"), where(stf), f"send_traffic raises {r.name} when nobody is subscribed")
